@@ -358,6 +358,31 @@ def c20_bridges(tier, seed):
     return _finish(r)
 
 
+class _CallTimeout(BaseException):
+    pass
+
+
+class _time_limit:
+    """wall-clock cap on ONE call of the code under check (stand-ins run in their own process, main thread)"""
+
+    def __init__(self, seconds):
+        self.seconds = seconds
+
+    def __enter__(self):
+        import signal
+
+        def _raise(signum, frame):
+            raise _CallTimeout()
+        self._old = signal.signal(signal.SIGALRM, _raise)
+        signal.setitimer(signal.ITIMER_REAL, self.seconds)
+
+    def __exit__(self, *a):
+        import signal
+        signal.setitimer(signal.ITIMER_REAL, 0)
+        signal.signal(signal.SIGALRM, self._old)
+        return False
+
+
 def poly_same_object(tier, seed):
     """C11/C12/C19 on ONE polyhedron object queried repeatedly: every method leaves the polyhedron (matrix, variables,
     bounds, index) unchanged and answers as a freshly built identical polyhedron does"""
@@ -390,7 +415,11 @@ def poly_same_object(tier, seed):
             return json.dumps(out, default=str)
         return json.dumps(x, default=str)
 
+    timeouts = 0
     for k in range(n):
+        if timeouts >= 3:
+            r["stopped_early"] = "three calls of the code under check did not come back within 15 s each"
+            break
         rows, cols = rng.randint(1, 3), rng.randint(1, 3)
         M = [[rng.randint(-3, 3) for _ in range(cols + 1)] for _ in range(rows)]
         bnds = [rng.choice([(0, 1), (0, 3), (-2, 2), (1, 1), (0, 0), (-3, -1), (2, 5)]) for _ in range(cols)]
@@ -416,11 +445,21 @@ def poly_same_object(tier, seed):
             name = rng.choice(sorted(calls))
             before = snap(p)
             try:
-                got = norm(calls[name](p))
+                with _time_limit(15):
+                    got = norm(calls[name](p))
+            except _CallTimeout:
+                # a call of the code under check that does not come back (a fix-point loop that stopped converging on a
+                # corrupted object): compared like any other outcome -- the fresh copy answers, this object does not
+                got = "no answer within 15 s"
+                timeouts += 1
             except Exception as e:
                 got = "raised " + type(e).__name__
             try:
-                exp = norm(calls[name](build(M, bnds)))
+                with _time_limit(15):
+                    exp = norm(calls[name](build(M, bnds)))
+            except _CallTimeout:
+                exp = "no answer within 15 s"
+                timeouts += 1
             except Exception as e:
                 exp = "raised " + type(e).__name__
             after = snap(p)
